@@ -1,4 +1,5 @@
 pub mod c12;
+pub mod c13;
 pub mod c16;
 pub mod chain;
 pub mod c19;
